@@ -45,6 +45,10 @@ impl Command for T {
                 context.env.halt.store(true, Ordering::SeqCst);
                 CommandResult::Continue(val)
             }
+            "halterr" => {
+                context.env.halt.store(true, Ordering::SeqCst);
+                CommandResult::Error(a.get(1).cloned().unwrap_or_default())
+            }
             _ => CommandResult::Continue(None),
         }
     }
@@ -57,7 +61,7 @@ pub fn gen(r: &mut Rng) -> Value {
     for _ in 0..n {
         let label = if r.chance(1, 3) { json!(r.pick(&labels)) } else { Value::Null };
         let out = if r.chance(1, 2) { json!(format!("v{}", r.below(3))) } else { Value::Null };
-        let kind = match r.below(16) {
+        let kind = match r.below(17) {
             0..=5 => "cont",
             6 | 7 => "gotol",
             8 => "goton",
@@ -66,9 +70,10 @@ pub fn gen(r: &mut Rng) -> Value {
             12 => "crash",
             13 => "halt",
             14 => "unknown",
+            15 => "halterr",
             _ => "nocmd",
         };
-        let val = match r.below(6) { 0 => "-", 1 => "0", 2 => "7", 3 => "x", 4 => "${v0}", _ => "CRASHME" };
+        let val = match r.below(7) { 0 => "-", 1 => "0", 2 => "7", 3 => "x", 4 => "${v0}", 5 => "-3", _ => "CRASHME" };
         let target = if kind == "gotol" { json!(r.pick(&[":a", ":b", ":c", ":zz"])) } else { json!(r.below(n + 2).to_string()) };
         lines.push(json!({"label": label, "out": out, "kind": kind, "val": val, "target": target}));
     }
@@ -189,7 +194,12 @@ pub fn run(input: &Value) -> Option<Value> {
                 }
                 break;
             }
-            "error" => {
+            "error" | "halterr" => {
+                // a halt raised by the failing command takes effect at the next instruction boundary:
+                // the instruction in flight (including its error protocol) completes
+                if kind == "halterr" {
+                    halted = true;
+                }
                 upd(&mut vars, &out, Some("false".to_string()));
                 if on_error > 0 {
                     trace.push(format!("on_error@0({}|{}|)->None", val_arg, src_line));
